@@ -231,6 +231,32 @@ def rule_schema(ck):
         want = ('%s[2]' % iv, '%s[0]' % iv) if swapped else ('%s[0]' % iv, '%s[2]' % iv)
         got = tuple(u(x) for x in v0.elts) if isinstance(v0, ast.Tuple) else None
         (oo.ok('origin = (lon0, lat0)') if got == want else oo.fail('the first vertex is %s; the cell origin must be (%s, %s) for swap_latlon=%s' % (got, want[0], want[1], swapped)))
+    if not comps and polys is not None:
+        # corner construction delegated to helpers selected by swap_latlon: read the expanded polygon expression
+        exi = Expander(P, f, inline_depth=2)
+        pe = exi.expand(rets[0].value)
+
+        def four_tuples(e, swapped):
+            if isinstance(e, ast.IfExp) and u(e.test) == 'swap_latlon':
+                four_tuples(e.body, True)
+                four_tuples(e.orelse, False)
+                return
+            if isinstance(e, ast.Tuple) and len(e.elts) == 4 and all(isinstance(x, ast.Tuple) and len(x.elts) == 2 for x in e.elts):
+                found.append((e, swapped))
+                return
+            for c_ in ast.iter_child_nodes(e):
+                four_tuples(c_, swapped)
+        found = []
+        four_tuples(pe, None)
+        for e, swapped in found:
+            oo = ck.ob('C11-D2.vertex', f, e.elts[0], rets[0])
+            got = tuple(u(x) for x in e.elts[0].elts)
+            base = got[0].rsplit('[', 1)[0]
+            want = ('%s[2]' % base, '%s[0]' % base) if swapped else ('%s[0]' % base, '%s[2]' % base)
+            if swapped is None:
+                oo.unknown('cannot tell which swap_latlon variant `%s` belongs to' % u(e.elts[0]))
+            else:
+                (oo.ok('origin = (lon0, lat0)') if got == want else oo.fail('the first vertex is %s; the cell origin must be (%s, %s) for swap_latlon=%s' % (got, want[0], want[1], swapped)))
     # flags
     o = ck.ob('C11-D2.flags', f, 'cell flags: column and order', rets[0])
     if mask is None:
@@ -359,18 +385,21 @@ def rule_axes(ck):
     ck.clause('D4')
     for name, axis in (('spatial_counts', 1), ('magnitude_counts', 0)):
         f = P.func(G + 'MarkedGriddedDataSet.' + name)
+        exa = Expander(P, f, expand_self=False)
         for r in returns(f):
             if r.value is None:
                 continue
-            sums = [n for n in ast.walk(r.value) if isinstance(n, ast.Call) and (P.canon(f, n.func) == 'numpy.sum' or (isinstance(n.func, ast.Attribute) and n.func.attr == 'sum'))]
+            rv = exa.expand(r.value)         # a temporary holding the sum is looked through
+            sums = [n for n in ast.walk(rv) if isinstance(n, ast.Call) and (call_name(n) in ('numpy.sum', '.sum'))]
             o = ck.ob('C11-D4.' + name, f, r.value, r)
             if len(sums) != 1:
                 o.fail('%s does not sum the rates once' % name)
                 continue
             s = sums[0]
-            ax = kw(s, 'axis', 1 if P.canon(f, s.func) == 'numpy.sum' else 0)
+            is_fn = call_name(s) == 'numpy.sum'
+            ax = kw(s, 'axis', 1 if is_fn else 0)
             av = const_value(ax) if ax is not None else None
-            src = u(s.args[0]) if P.canon(f, s.func) == 'numpy.sum' and s.args else u(s.func.value)
+            src = u(s.args[0]) if is_fn and s.args else u(s.func.value)
             okax = av == axis or (axis == 1 and av == -1) or (axis == 0 and av == -2)
             if src != 'self.data':
                 o.fail('%s sums `%s`, not the scaled view self.data' % (name, src))
